@@ -1582,7 +1582,7 @@ sexp sexp_intern(sexp ctx, const char *str, sexp_sint_t len) {
 #if SEXP_USE_HUFF_SYMS
   res = 0;
   space = SEXP_IMMEDIATE_BITS;
-  if (len == 0 || sexp_isdigit((unsigned char)p[0])
+  if (len == 0 || sexp_isdigit((unsigned char)p[0]) || p[0] == '`'
       || ((p[0] == '+' || p[0] == '-') && len > 1))
     goto normal_intern;
   for ( ; i<len; i++, p++) {
@@ -2371,6 +2371,9 @@ sexp sexp_write_one (sexp ctx, sexp obj, sexp out, sexp_sint_t bound) {
       str = sexp_lsymbol_data(obj);
       c = (sexp_lsymbol_length(obj) == 0 ||
            (sexp_lsymbol_length(obj) == 1 && str[0] == '.') ||
+           str[0] == '`' ||
+           (sexp_lsymbol_length(obj) > 1 && str[0] == '.'
+            && sexp_isdigit((unsigned char)str[1])) ||
            sexp_isdigit((unsigned char)str[0]) ||
            (sexp_lsymbol_length(obj) > 1 &&
             ((str[0] == '+' || str[0] == '-')
